@@ -186,6 +186,18 @@ def sources(draw, nfilt, k=None, logmodels=None, min_fit=2, flags=None, distance
             'flag_dtype': draw(FLAG_DTYPES)}
 
 
+def reversed_case(case):
+    """the same package fitted with its filters listed in reverse order (for a second Fitter kept alive beside the first)"""
+    c = dict(case)
+    c['filters'] = list(case['filters'])[::-1]
+    c['theta'] = list(case['theta'])[::-1]
+    if 'setup' in case:
+        c['setup'] = dict(case['setup'], theta=list(case['setup']['theta'])[::-1])
+    if case.get('format') == 'v2mixed':
+        c['format'] = 'v2wav'     # (which filters go by name depends on their position; the cube holds every slice)
+    return c
+
+
 def tabulated_wav(f):
     """the wavelength the cube tabulates for a filter that is fitted at f['wav'] (see off_grid_requests)"""
     return f['wav'] * f.get('tab_offset', 1.)
